@@ -38,7 +38,8 @@ std::string hx(const std::string& s) { return s.empty() ? "-" : vx::hex(s); }
 struct Driver {
     std::vector<std::string> dispatched;
     HTTPServer server;
-    Driver() : server([this](std::unique_ptr<HTTPRequest>&& req) {
+    Driver() : server([this](std::unique_ptr<HTTPRequest>&& moved_req) {
+                   std::unique_ptr<HTTPRequest> req{std::move(moved_req)}; // the dispatcher owns the request (the client's m_req becomes empty)
                    std::string r = "M=" + std::to_string((int)req->m_method) + ";T=" + hx(req->m_target) + ";V=" + std::to_string(req->m_version.major) + "." + std::to_string(req->m_version.minor) + ";H=";
                    bool first = true;
                    for (auto& [k, v] : req->m_headers.m_headers) { r += (first ? "" : ",") + hx(k) + ":" + hx(v); first = false; }
